@@ -341,6 +341,9 @@ def build(scn, rec, sim_options=None):
     return sim
 
 
+_PlainRecorder = Recorder      # checks may swap `simimpl.Recorder` for their own subclass; the shadow never uses it
+
+
 class Shadow:
     """A second simulation alive in the same process and advanced in lock-step with the scenario's own
     one (`scn["shadow"]`). Nothing of it is observed: whatever it does must not matter to the scenario
@@ -365,7 +368,7 @@ class Shadow:
             seed = getattr(behaviour, "seed", simgen.stable_hash("beh", scn.get("seed", 0))) if twin else \
                 simgen.stable_hash("shadow", scn.get("seed", 0))
             beh = simgen.Behaviour(seed, s2["cfg"], scn.get("profile"))
-        self.rec = Recorder(s2, beh)
+        self.rec = _PlainRecorder(s2, beh)
         self.alive = True
         try:
             self.sim = build(s2, self.rec)
